@@ -1,4 +1,4 @@
-import BM.Props.C20e
+import BM.Props.C20f
 import BM.Props.SrcPin.C20
 /- Top module of property C20: its theorems (BM.Props.C20) and the statement of which units of /repo's
    source its model and proofs were written against (BM/Props/SrcPin/C20.lean, re-checked against the
